@@ -235,14 +235,20 @@ class ScriptedBroker(AsyncBroker):
             info = self.q.popleft()
             payload = info["payload"]
             if isinstance(payload, (bytes, bytearray)):
-                # a fresh object so that identity is unique per delivery (even for b"")
+                # a fresh object per delivery that carries its delivery number (even for b"").  No reference is kept:
+                # a streaming broker's message objects are garbage once processed (and their id() may be re-used)
                 payload = TBytes(payload)
+                payload.verif_d = info["d"]
             if info.get("ackable"):
-                payload = AckableMessage(data=payload, ack=make_ack(sc, info))
-            sc.keep.append(payload)
-            sc.by_obj[id(payload)] = info["d"]
+                ackf = make_ack(sc, info)
+                try:
+                    ackf.verif_d = info["d"]
+                except AttributeError:
+                    pass
+                payload = AckableMessage(data=payload, ack=ackf)
             sc.trace.add("yield", info["d"], tok=info["tok"], mk=info["kind"])
             yield payload
+            del payload
 
 
 from taskiq.brokers.inmemory_broker import InMemoryBroker  # noqa: E402
@@ -274,8 +280,7 @@ class MonInMemoryBroker(InMemoryBroker):
         info = {"tok": message.task_id, "kind": "valid", "loop": True, "ackable": False, "task": message.task_name}
         d = self.new_delivery(info)
         payload = TBytes(message.message)
-        sc.keep.append(payload)
-        sc.by_obj[id(payload)] = d
+        payload.verif_d = d
         sc.trace.add("yield", d, tok=message.task_id, mk="valid")
         await super().kick(message.model_copy(update={"message": payload}))
 
@@ -354,7 +359,11 @@ class MonReceiver(Receiver):
 
     async def callback(self, message: Any, raise_err: bool = False) -> None:  # noqa: D102
         sc = self.sc
-        d = sc.by_obj.get(id(message))
+        d = getattr(message, "verif_d", None)
+        if d is None:
+            d = getattr(getattr(message, "ack", None), "verif_d", None)
+        if d is None:
+            d = getattr(getattr(message, "data", None), "verif_d", None)
         OWNER.set(d)
         if d is not None:
             sc.tok_delivery[sc.deliveries[d]["tok"]] = d
@@ -641,6 +650,12 @@ def build_functions(sc: Scenario, broker: AsyncBroker) -> None:
                 f"def {fn}({ps}):\n"
                 f"    return _run_beh_sync(_sc, tok, {a_kw}, {depvals}, {echo})\n"
             )
+        if ts.get("asyncified") and ts.get("fn", "async") == "async":
+            # an async wrapper made with functools.wraps around a blocking function (asyncify / sync_to_async style):
+            # the registered callable is the coroutine function, whatever it wraps
+            src = (f"def inner_{fn}({ps}):\n    raise RuntimeError('the wrapped blocking function is not what was registered')\n"
+                   f"@functools.wraps(inner_{fn})\n" + src)
+            ns["functools"] = __import__("functools")
         exec(src, ns)  # noqa: S102
         f = ns[fn]
         f.__module__ = "mon.worker_harness"
@@ -839,6 +854,7 @@ def build_payload(sc: Scenario, broker: AsyncBroker, m: Dict[str, Any], tok: str
 
 
 DEFAULT_TASKS = {"t_async": {"fn": "async"}, "t_sync": {"fn": "sync"}, "t_model": {"fn": "async", "model_param": True},
+                 "t_asyncified": {"fn": "async", "asyncified": True},
                  "t_plain": {"fn": "async", "plain_param": True}, "t_plain_sync": {"fn": "sync", "plain_param": True}}
 
 
